@@ -45,6 +45,7 @@ static void c15_reset(void) {
     tr("reset");
 }
 #define C15_NOPS 20
+static int c15_validate_st;   /* drills: the state types ValidateState is asked about */
 static void c15_op(Buf *b, int op) {
     char id[20];
     switch (op) {
@@ -88,7 +89,7 @@ static void c15_op(Buf *b, int op) {
     case 18: { if (c15_ver != 1) { TPM_RESULT r = TPMLIB_SetProfile("{\"Name\":\"null\"}"); tr("api op=setprofile kind=tpm12 ret=%u", r); break; }
         int k = rnd(3); const char *p = k == 0 ? PROFILE_NULL : k == 1 ? PROFILE_DEFAULT_V1 : "{\"Name\":\"no-such-profile\"}";
         TPM_RESULT r = TPMLIB_SetProfile(p); tr("api op=setprofile kind=%d ret=%u", k, r); break; }
-    default: { int st = 1 + rnd(3); TPM_RESULT r = TPMLIB_ValidateState(st, 0); tr("api op=validate st=%d ret=%u", st, r); break; }
+    default: { int st = c15_validate_st ? c15_validate_st : 1 + rnd(3); TPM_RESULT r = TPMLIB_ValidateState(st, 0); tr("api op=validate st=%d ret=%u", st, r); break; }
     }
     c15_stor();
 }
@@ -126,6 +127,13 @@ static void scen_c15(int depth, int sampled, int sampled_len, int shard, int nsh
         if ((s % nshards) != (shard % nshards)) continue;
         c15_reset(); long x = s; for (int d = 0; d < depth; d++) { c15_op(&b, (int)(x % C15_NOPS)); x /= C15_NOPS; }
     }
+    /* drills around ValidateState: what SetState cached (a blob or the 'hide' marker) is still there for GetState and MainInit */
+    for (int v = 0; v < 2; v++) for (int vst = 1; vst <= 3; vst++) for (int nullvol = 0; nullvol < 2; nullvol++) for (int stored = 0; stored < 2; stored++) {
+        c15_reset(); c15_op(&b, v);
+        if (stored) { c15_op(&b, 3); c15_op(&b, 15); c15_op(&b, 4); }   /* a started and terminated TPM leaves its state in storage */
+        c15_op(&b, 5); c15_op(&b, nullvol ? 9 : 8);
+        c15_validate_st = vst; c15_op(&b, 19); c15_validate_st = 0;
+        c15_op(&b, 12); c15_op(&b, 11); c15_op(&b, 3); c15_op(&b, 15); c15_op(&b, 12); }
     /* sampled: longer random sequences biased towards running TPMs */
     for (int i = 0; i < sampled; i++) { c15_reset(); int len = 4 + rnd(sampled_len);
         for (int d = 0; d < len; d++) { int op = chance(25) ? (int[]){3, 4, 15, 5, 11}[rnd(5)] : rnd(C15_NOPS); c15_op(&b, op); } }
